@@ -18,7 +18,8 @@ RULE = (
     "(SHA-256 of the bytes read through its current versioned key) to its own name; (2) live mementos without override whose stored bytes are equal "
     "carry the same content key and version, and a memoize whose content key already existed opens no file for writing under c/ (audit hook); "
     "(3) every live memento still reads exactly the digest recorded when it was created. Generators: all sequences up to length 3/4 over a 13-op "
-    "alphabet (exhaustive) + Hypothesis histories. Non-trivial = a duplicate-bytes memoize, an override overwrite while an older memento of that key "
+    "alphabet (exhaustive) + Hypothesis histories + a fault family: for 6 values x {cache, no cache} every mutating filesystem operation of one memoize is crashed / failed in every variant of C08, "
+    "then two fault-free memoizes of the same bytes by other calls must yield mementos whose content key is shared, readable, hashes to its name and reads back the value, and no listed content key may hold bytes that hash to something else. Non-trivial = a duplicate-bytes memoize, an override overwrite while an older memento of that key "
     "is live, or a forget between write and re-read; distinct by op-kind sequence."
 )
 ASSUMPTIONS = [
@@ -139,7 +140,143 @@ class CasSession(storeops.Session):
                         dig[:12], len(cks), sorted(cks)))
 
 
+# ------------------------------------------------------------------------------------------
+# fault family: the integrity invariant must also hold on a store whose last write was interrupted
+# ------------------------------------------------------------------------------------------
+
+def _fault_child(spec):
+    """forked child: memoize (f#1, 0) -> value under the fault plan (storage level, no runner)"""
+    from vlib import faults as _faults, hfuncs
+    refs = hfuncs.refs()
+    st = storeops.Store("fsc" if spec["cache"] else "fs", spec["root"], budget_mb=0.5, shared_meta=True)
+    value = values.build(spec["value"])
+    if spec.get("pre"):
+        # another live entry first, so that the directories already exist
+        pv = values.build({"t": "str", "v": "pre-existing"})
+        st.backend.memoize(None, storeops.make_memento(refs["fa#10"].with_args(0), pv), pv)
+    mem = storeops.make_memento(refs["f#1"].with_args(0), value)
+    with _faults.Controller(spec["root"], spec.get("plan")) as ctl:
+        try:
+            st.backend.memoize(None, mem, value)
+            err = None
+        except (IOError, OSError) as e:
+            err = repr(e)
+    return {"events": ctl.events, "fired": ctl.fired, "error": err}
+
+
+def _fault_verify(spec):
+    """forked child (fresh process, no faults): two more calls store the same bytes; then the whole-store invariant"""
+    from vlib import hfuncs
+    from twosigma.memento.types import VersionedDataSourceKey
+    refs = hfuncs.refs()
+    st = storeops.Store("fsc" if spec["cache"] else "fs", spec["root"], budget_mb=0.5, shared_meta=True)
+    value = values.build(spec["value"])
+    problems = []
+    cks = {}
+    for fnkey in ("f2#1", "f#1"):
+        rwa = refs[fnkey].with_args(0)
+        try:
+            st.backend.memoize(None, storeops.make_memento(rwa, value), value)
+            mem = st.backend.get_memento(rwa.fn_reference_with_arg_hash())
+        except Exception as e:  # noqa
+            sig = storeops.lib_exception_signature(e)
+            if sig is None:
+                raise
+            problems.append(["exception", "memoize/get_memento of %s after the fault raised %r" % (fnkey, e)])
+            continue
+        if mem is None:
+            problems.append(["lost", "no memento for %s right after a fault-free memoize" % fnkey])
+            continue
+        ck = mem.content_key
+        if value is None:
+            continue
+        if ck is None:
+            problems.append(["no-content-key", "memento of %s has no content key" % fnkey])
+            continue
+        cks[fnkey] = [ck.key, ck.version]
+        try:
+            with st.backend._data_source.input_versioned(ck) as f:
+                h = hashlib.sha256(f.read()).hexdigest()
+        except (IOError, OSError) as e:
+            problems.append(["memento-bytes-unreadable", "memento of %s references %s#%s which cannot be read: %r" % (fnkey, ck.key[:14], ck.version[:8], e)])
+            continue
+        if "c/" + h != ck.key:
+            problems.append(["hash-key-mismatch", "memento of %s references %s whose bytes hash to %s" % (fnkey, ck.key[:14], h[:12])])
+        try:
+            back = st.backend.read_result(mem)
+            if not values.typed_equal(back, value):
+                problems.append(["wrong-value", "read_result of %s gives %r" % (fnkey, back)])
+        except Exception as e:  # noqa
+            problems.append(["read-raised", "read_result of %s raised %r" % (fnkey, e)])
+    if len(cks) == 2 and cks["f2#1"] != cks["f#1"]:
+        problems.append(["not-deduplicated", "identical bytes stored under two content keys/versions: %r" % (cks,)])
+    ds = st.backend._data_source
+    for k in sorted(x.key for x in ds.list_keys_nonversioned(DataSourceKey("c"))):
+        try:
+            vk = ds.get_versioned_key(DataSourceKey(k))
+            with ds.input_versioned(vk) as f:
+                h = hashlib.sha256(f.read()).hexdigest()
+        except (IOError, OSError):
+            continue  # a listed key that cannot be read at all carries no wrong bytes (C08 covers what calls then do)
+        if "c/" + h != k:
+            problems.append(["hash-key-mismatch", "bytes under listed content key %s hash to %s" % (k[:14], h[:12])])
+    return problems
+
+
+def execute_fault(case, scratch):
+    """case = {"kind":"fault","value":desc,"cache":bool,"pre":bool}: every mutating operation of the memoize x every variant"""
+    from vlib import proc, faults
+    from checks.c08 import variants_for
+    out = core.Outcome()
+    base = {"value": case["value"], "cache": case["cache"], "pre": case.get("pre", False)}
+    d0 = env.fresh_dir(scratch, "c07f-")
+    try:
+        dry = proc.forkrun(_fault_child, dict(base, root=d0, plan=None))
+    finally:
+        env.rm(d0)
+    npts = 0
+    for ev in dry["events"]:
+        for variant in variants_for(ev):
+            npts += 1
+            d = env.fresh_dir(scratch, "c07f-")
+            try:
+                r = proc.forkrun(_fault_child, dict(base, root=d, plan={"event": ev["i"], "variant": variant, "k": None}),
+                                 crash_code=faults.CRASH_CODE)
+                problems = proc.forkrun(_fault_verify, dict(base, root=d))
+                for sym, msg in problems:
+                    out.violation("after %s at operation %d (%s %s) of memoize(%s): %s" % (
+                        variant, ev["i"], ev["event"], ev["rel"].split(os.sep)[0], core.canon(case["value"])[:80], msg),
+                        symptom=sym, fault=variant, backend="fsc" if case["cache"] else "fs")
+                out.labels.append("fault:" + variant)
+                if r.get("crashed"):
+                    out.labels.append("fault-crashed")
+            finally:
+                env.rm(d)
+            if out.violations:
+                break
+        if out.violations:
+            break
+    out.labels = sorted(set(out.labels)) + ["family:fault"]
+    out.nontrivial = True
+    out.nt_key = case
+    out.render = {"fault_family": case, "fault_points": npts, "operations": [(e["event"], e["rel"]) for e in dry["events"]]}
+    out.excluded = 0
+    return out
+
+
+FAULT_CASES = [
+    {"kind": "fault", "value": {"t": "str", "v": "payload-abc"}, "cache": False, "pre": False},
+    {"kind": "fault", "value": {"t": "str", "v": "payload-abc"}, "cache": True, "pre": True},
+    {"kind": "fault", "value": {"t": "list", "v": [{"t": "int", "v": "1"}, {"t": "str", "v": "x"}]}, "cache": False, "pre": True},
+    {"kind": "fault", "value": {"t": "nd", "dtype": "int64", "v": [1, 2, 3]}, "cache": False, "pre": False},
+    {"kind": "fault", "value": {"t": "str", "n": 20000, "c": "L"}, "cache": False, "pre": True},
+    {"kind": "fault", "value": {"t": "dict", "v": {"a": {"t": "float", "v": "1.5"}}}, "cache": True, "pre": False},
+]
+
+
 def execute(case, scratch):
+    if case.get("kind") == "fault":
+        return execute_fault(case, scratch)
     d = env.fresh_dir(scratch, "c07-")
     try:
         sess = CasSession(d, case)
@@ -181,6 +318,8 @@ def run_shard(ctx):
                                 shard=ctx.shard, nshards=ctx.nshards, deadline_s=dl(0.6))
     stats.extra["exhaustive_sequences"] = stats.evaluations
     stats.extra["small_scope_complete"] = bool(complete)
+    # fault family: a fixed list, spread over the shards (each case enumerates all its fault points)
+    core.enum_search(FAULT_CASES, ex, stats, findings=ctx.findings, shard=ctx.shard, nshards=ctx.nshards, deadline_s=dl(0.8))
     core.hyp_search(
         storegen.history_strategy(80 if thorough else 30, backends=("fs", "fsc"), overrides=True, pool_values=True),
         ex, stats, max_examples=1500 if thorough else 50, seed=core.hash64(ctx.seed, ID, ctx.shard),
